@@ -325,6 +325,45 @@ def rel_cases(chk: Check, n: int, scratch: Path) -> list[dict]:
     return cases
 
 
+def add_import_cases(chk: Check, n: int, scratch: Path) -> list[dict]:
+    """RenderContext.add_import end to end (prefix repair -> internal? -> relative path), observed as the absolute
+    module that the registered import denotes for CPython from <pkg>/cur_zz.py"""
+    from pyopenapi_gen.context.render_context import RenderContext
+    rng = chk.rng
+    out = []
+    fixed = [(["pyapis", "business"], ["business", "core", "http_transport"]), (["x", "c"], ["c", "abc"]),
+             (["dup", "dup"], ["dup", "dup", "models", "user"]), (["a", "b", "client"], ["b", "client", "models", "u"]),
+             (["client"], ["client", "models", "u"]), (["a", "client"], ["other", "lib"])]
+    for i in range(n):
+        if i < len(fixed):
+            pkg, m = fixed[i]
+        else:
+            pkg = rand_path(rng, 1, 3)
+            r = rng.random()
+            m = (pkg[1:] + rand_path(rng, 1, 2)) if r < 0.4 and len(pkg) > 1 else (pkg + rand_path(rng, 1, 2)) if r < 0.7 else rand_path(rng, 1, 4)
+        if m == pkg or m == pkg + ["cur_zz"] or (len(pkg) > 1 and [pkg[0]] + m in (pkg, pkg + ["cur_zz"])):
+            continue
+        root = scratch / f"ai{i}"
+        pkg_root = root.joinpath(*pkg)
+        ctx = RenderContext(core_package_name="zz_core", package_root_for_generated_code=str(pkg_root),
+                            overall_project_root=str(root), output_package_name=".".join(pkg))
+        ctx.set_current_file(str(pkg_root / "cur_zz.py"))
+        ctx.add_import(".".join(m), "X")
+        ic = ctx.import_collector
+        keys = [("abs", k) for k in ic.imports] + [("rel", k) for k in ic.relative_imports] + [("plain", k) for k in ic.plain_imports]
+        if len(keys) != 1:
+            obs = None
+        elif keys[0][0] == "rel":
+            try:
+                obs = importlib.util.resolve_name(keys[0][1], ".".join(pkg)).split(".")
+            except ImportError:
+                obs = None
+        else:
+            obs = keys[0][1].split(".")
+        out.append({"input": {"k": "add", "pkg": pkg, "m": m}, "obs": obs, "oracle_fail": []})
+    return out
+
+
 def c_case(c: dict) -> str:
     i, o = c["input"], c["obs"]
     k = i["k"]
@@ -338,6 +377,8 @@ def c_case(c: dict) -> str:
     if k == "stmt":
         return (f"(CStmt {cpath(i['pkg'])} {cpath(i['core'])} {cpath(i['cur'])} {cbool(i['is_pkg'])} {cnat(i['level'])} "
                 f"{cpath(i['parts'])} {cN(i['loc'])}, OBool {cbool(o)})")
+    if k == "add":
+        return f"(CAdd {cpath(i['pkg'])} {cpath(i['m'])}, OPath {'None' if o is None else '(Some ' + cpath(o) + ')'})"
     if k == "core":
         rows = clist(f"({cnat(l)}, {cpath(p)}, {cN(loc)})" for l, p, loc in o)
         return f"(CCore {cpath(i['file'])}, ORt {rows})"
@@ -408,6 +449,7 @@ def main(chk: Check, replay: dict | None = None) -> int:
         cases: list[dict] = []
         # ---- 1. relative-path functions and CPython's rule
         cases += rel_cases(chk, 4000 if chk.thorough else 800, scratch)
+        cases += add_import_cases(chk, 600 if chk.thorough else 150, scratch)
         n_rel = len(cases)
 
         # ---- 2. real packages
@@ -476,7 +518,7 @@ def main(chk: Check, replay: dict | None = None) -> int:
             + sum(1 for c in stmt_cases if c["input"]["level"] > 0 or c["input"]["parts"][0] not in STDLIB))
         dist.update({"relative_function_cases": n_rel, "distinct_statements": len(stmt_cases),
                      "oracle_failures": sum(1 for c in cases if c["oracle_fail"]),
-                     "kinds": {k: sum(1 for c in cases if c["input"]["k"] == k) for k in ("calc", "mri", "res", "stmt", "core")},
+                     "kinds": {k: sum(1 for c in cases if c["input"]["k"] == k) for k in ("calc", "mri", "res", "add", "stmt", "core")},
                      "calc_none": sum(1 for c in cases if c["input"]["k"] == "calc" and c["obs"] is None),
                      "calc_tdir": sum(1 for c in cases if c["input"]["k"] == "calc" and c["input"]["tdir"]),
                      "resolve_errors": sum(1 for c in cases if c["input"]["k"] == "res" and c["obs"] is None)})
